@@ -328,6 +328,14 @@ package server
 // "iff the peer currently has an accepted membership for one of the route's targets (or the default membership)": every
 // membership announcement or withdrawal that arrives is recorded in the peer's membership set, whatever else the
 // peer holds at that moment (what is advertised later is decided from that set)
+// from C17 "every membership or VRF change triggers exactly the ... withdrawals needed" / C09 "never advertised ...":
+// towards a peer that is sent every path (ADD-PATH), a new version of a path the peer holds that the filters now
+// refuse (route targets changed away from its memberships / the VRF's imports, policy) takes the held version away:
+// the withdrawal of what was sent is built, booked and queued
+//@ func (*BgpServer).propagateUpdateToNeighbors$2
+//@   tag C17 C09
+//@   claims at-call
+//@   at-call targetPeer.updateRoutes(w) requires alreadySent && w.IsWithdraw
 //@ func (*BgpServer).processRTCMembership
 //@   claims at-return
 //@   at-return requires ok ==> called(SyncAfterImport)
